@@ -171,9 +171,13 @@ def upward_ops(node, root):
 
     def climb():
         cur, seen = node, []
-        for _ in range(8):
-            cur = cur.parent
-            seen.append(cur.name)
+        try:
+            for _ in range(8):
+                cur = cur.parent
+                seen.append(cur.name)
+        except Exception:  # noqa: BLE001
+            if not seen:
+                raise
         return seen
 
     ops = [("parent_chain", climb), ("file", lambda: node.file.name)]
@@ -182,9 +186,23 @@ def upward_ops(node, root):
                 ("abs_copy_dst", lambda: node.copy(sorted(node.keys())[0], "/escaped") if len(node) else (_ for _ in ()).throw(KeyError())),
                 ("abs_setitem", lambda: node.__setitem__("/escaped2", 1)),
                 ("rel_dotdot", lambda: node["../secret"].name)]
+    def self_local():
+        # the derived node is explicitly made local_only itself: it becomes its own local root
+        node.restrict(local_only=True)
+        seen = []
+        cur = node
+        try:
+            for _ in range(4):
+                cur = cur.parent
+                seen.append(("OUTSIDE:" + cur.name) if not within(cur.name, node.name) else cur.name)
+        except Exception:  # noqa: BLE001 - refused at some level: what was yielded before still counts
+            pass
+        return seen
+
     ops += [("query_default", lambda: [n.name for n in node.metador.query("verif.base")]),
             ("query_node_none", lambda: [n.name for n in node.metador.query("verif.base", node=None)]),
-            ("query_other", lambda: [n.name for n in node.metador.query("verifother.thing")])]
+            ("query_other", lambda: [n.name for n in node.metador.query("verifother.thing")]),
+            ("zz_self_local_parent", self_local)]  # last: it changes the flags of the derived node
     return ops
 
 
@@ -299,6 +317,13 @@ def run_block(driver, start, flags, late, maxlen, rec):
                     raised = False
                 except Exception:  # noqa: BLE001
                     res, raised = None, True
+                if name == "zz_self_local_parent":
+                    bad = [n for n in (res or []) if isinstance(n, str) and n.startswith("OUTSIDE:")]
+                    if not raised and bad and node.name != "/":
+                        rec.fail("C15:local-only-escaped:after-restricting-derived-node", dict(case, op=name),
+                                 f"{node.name}.restrict(local_only=True) then .parent yielded {bad}", f"nothing above {node.name}")
+                    rec.case(nt_key=nt_base + [name] if chain else None, classes=classes + ["local_upward_refused"])
+                    continue
                 if lo and not raised:
                     names = res if isinstance(res, list) else [res] if isinstance(res, str) else []
                     bad = [n for n in names if isinstance(n, str) and not within(n, start)]
